@@ -33,20 +33,71 @@ theorem active_def (e : Emu) : e.active = gridActive e.primary e.alt e.altActive
 theorem height_def (e : Emu) : e.height = gridHeight e.primary e.alt e.altActive := rfl
 theorem width_def (e : Emu) : e.width = gridWidth e.primary e.alt e.altActive := rfl
 
+theorem gridActive_setActive (e : Emu) (g : Grid) :
+    gridActive (e.setActive g).primary (e.setActive g).alt e.altActive = g := by
+  unfold Emu.setActive gridActive; cases e.altActive <;> simp
+theorem gridHeight_setActive (e : Emu) (g : Grid) :
+    gridHeight (e.setActive g).primary (e.setActive g).alt e.altActive = (g.length : Int) := by
+  unfold gridHeight; rw [gridActive_setActive]
+theorem setActive_setActive (e : Emu) (g g' : Grid) : (e.setActive g).setActive g' = e.setActive g' := by
+  unfold Emu.setActive; cases e.altActive <;> simp
+
+theorem setActive_cs (e : Emu) (g : Grid) : (e.setActive g).cs = e.cs := by unfold Emu.setActive; split <;> rfl
+theorem setActive_tabs (e : Emu) (g : Grid) : (e.setActive g).tabs = e.tabs := by unfold Emu.setActive; split <;> rfl
+theorem setActive_savedP (e : Emu) (g : Grid) : (e.setActive g).savedP = e.savedP := by unfold Emu.setActive; split <;> rfl
+theorem setActive_savedA (e : Emu) (g : Grid) : (e.setActive g).savedA = e.savedA := by unfold Emu.setActive; split <;> rfl
+theorem setActive_osc8 (e : Emu) (g : Grid) : (e.setActive g).osc8 = e.osc8 := by unfold Emu.setActive; split <;> rfl
+theorem setActive_hasVx (e : Emu) (g : Grid) : (e.setActive g).hasVx = e.hasVx := by unfold Emu.setActive; split <;> rfl
+
+/-- a cell copy inside one row, in the shape `dch` uses -/
+theorem cellCopy_same_row (g : Grid) (r c c2 : Int) :
+    cellCopy g r c r c2 = (do
+      let row ← getI g r
+      let x ← getI row c2
+      let row' ← setI row c x
+      setI g r row') := by
+  unfold cellCopy
+  cases h : getI g r <;> simp [ok_bind, err_bind]
+
+theorem goOn_norm : goOn .norm = true := by decide
+theorem goOn_cont : goOn .cont = true := by decide
+theorem goOn_brk : goOn .brk = false := by decide
+theorem goOn_ret : goOn .ret = false := by decide
+
+theorem min_clamp (a w : Int) : min a (w - 1) = if w ≤ a then w - 1 else a := by
+  split <;> omega
+
+theorem len3 (r : List Param) : (((r.length : Int) + 1 + 1 + 1 = 0) = False) ∧ (((r.length : Int) + 1 + 1 + 1 = 1) = False) ∧
+    (((r.length : Int) + 1 + 1 + 1 = 2) = False) ∧ (((r.length : Int) + 1 + 1 = 0) = False) ∧ (((r.length : Int) + 1 + 1 = 1) = False)
+    ∧ (((r.length : Int) + 1 = 0) = False) := by
+  refine ⟨?_, ?_, ?_, ?_, ?_, ?_⟩ <;> (apply eq_false; omega)
+
+/-- The bodies for which `body_<fn>` above is proved: none of them contains a statement outside
+    the language, and all satisfy the side conditions of `evalBody` (loop bodies only touch cells,
+    `return` inside a loop only at the end of the function, `break`/`continue` only in loops). -/
+def covered : List Body :=
+  [VaxisModel.Gen.TermBodies.body_cuu, VaxisModel.Gen.TermBodies.body_cud, VaxisModel.Gen.TermBodies.body_cuf, VaxisModel.Gen.TermBodies.body_cub, VaxisModel.Gen.TermBodies.body_cnl,
+   VaxisModel.Gen.TermBodies.body_cpl, VaxisModel.Gen.TermBodies.body_cha, VaxisModel.Gen.TermBodies.body_cup, VaxisModel.Gen.TermBodies.body_vpa, VaxisModel.Gen.TermBodies.body_vpr,
+   VaxisModel.Gen.TermBodies.body_hpa, VaxisModel.Gen.TermBodies.body_hpr, VaxisModel.Gen.TermBodies.body_decstbm, VaxisModel.Gen.TermBodies.body_ind, VaxisModel.Gen.TermBodies.body_nel,
+   VaxisModel.Gen.TermBodies.body_ri, VaxisModel.Gen.TermBodies.body_bs, VaxisModel.Gen.TermBodies.body_ht, VaxisModel.Gen.TermBodies.body_lf, VaxisModel.Gen.TermBodies.body_vt,
+   VaxisModel.Gen.TermBodies.body_ff, VaxisModel.Gen.TermBodies.body_cr, VaxisModel.Gen.TermBodies.body_csi_su, VaxisModel.Gen.TermBodies.body_csi_sd,
+   VaxisModel.Gen.TermBodies.body_el, VaxisModel.Gen.TermBodies.body_ech, VaxisModel.Gen.TermBodies.body_ed, VaxisModel.Gen.TermBodies.body_il, VaxisModel.Gen.TermBodies.body_dl,
+   VaxisModel.Gen.TermBodies.body_dch, VaxisModel.Gen.TermBodies.body_scrollUp, VaxisModel.Gen.TermBodies.body_scrollDown]
+
 /-! Tactics: `body_norm` evaluates `evalBody` on a concrete body (first the interpreter itself, with
 the comparisons still folded so that their `Decidable` instances are built from normalised
 operands, then comparisons and the model side); `body_fin` splits the remaining `if`s. -/
 
 macro "body_norm" : tactic => `(tactic|
-  (simp only [height_def, width_def, active_def, Emu.bg, evalBody, evalS, evalG, initFrame, evalCond, evalEx, evalBnd, exOk, Frame.get, Frame.set, ok_bind, err_bind,
-    ite_bind', callFn, pmGet, hasBrk, loopUp, loopDown, List.getD_cons_zero, List.getD_cons_succ, List.getD_nil,
+  (simp only [height_def, width_def, active_def, Emu.bg, gridActive_setActive, setActive_setActive, setActive_altActive, setActive_cs, setActive_tabs, setActive_savedP, setActive_savedA, setActive_osc8, setActive_hasVx, setActive_cur, setActive_top, setActive_bottom, setActive_left, setActive_right, setActive_mode, setActive_lastCol, evalBody, evalS, evalG, initFrame, evalCond, evalEx, evalBnd, exOk, Frame.get, Frame.set, ok_bind, err_bind,
+    ite_bind', bind_assoc', callFn, pmGet, hasBrk, goOn_norm, goOn_cont, goOn_brk, goOn_ret, loopUp, loopDown, List.getD_cons_zero, List.getD_cons_succ, List.getD_nil,
     List.getElem?_cons_zero, List.getElem?_cons_succ, List.getElem?_nil, List.length_cons, List.length_nil, Int.natCast_add, Int.natCast_one, Int.natCast_zero, Nat.zero_add,
     Option.getD_some, Option.getD_none, List.nil_append, List.cons_append,
     Bool.and_true, Bool.true_and, if_true, if_false, ite_true, ite_false, reduceIte, reduceCtorEq,
     Nat.succ_ne_zero, Nat.reduceEqDiff, Bool.false_eq_true, Bool.or_self, Bool.or_false]
    all_goals try simp only [evalCmp, Fixes.current, decide_eq_true_eq, Bool.and_eq_true, Bool.or_eq_true, Bool.not_eq_true',
      Bool.true_and, Bool.false_and, decide_eq_false_iff_not, Bool.not_eq_eq_eq_not, Bool.not_true]
-   all_goals simp [evalCmp, Fixes.current, dflt1, height_def, width_def, active_def, Emu.bg, ok_bind, err_bind, ite_bind', bind_ok_eta]))
-macro "body_fin" : tactic => `(tactic| all_goals ((repeat' (split <;> (try omega) <;> try simp_all)) <;> (try simp only [decide_eq_true_eq, decide_eq_false_iff_not] at *) <;> (try omega)))
+   all_goals simp [evalCmp, Fixes.current, dflt1, height_def, width_def, active_def, gridActive_setActive, setActive_setActive, setActive_cs, setActive_tabs, setActive_savedP, setActive_savedA, setActive_osc8, setActive_hasVx, Emu.bg, ok_bind, err_bind, ite_bind', bind_ok_eta]))
+macro "body_fin" : tactic => `(tactic| all_goals ((repeat' (split <;> (try omega) <;> try simp_all)) <;> (try simp only [decide_eq_true_eq, decide_eq_false_iff_not] at *) <;> (try omega) <;> (try rfl)))
 
 end VaxisModel.Lemmas.EmuBody
